@@ -90,6 +90,7 @@ type Req struct {
 	Worker, Index  int
 	Node, Ns, Name string
 	Outcome        Outcome
+	NewCycle       bool // sequential only: a new descheduling cycle starts before this request (limiter Reset)
 	// results (guarded by Gate.mu while workers run)
 	apiCalls int   // how often the API endpoint was reached for this pod
 	returned *bool // what Evict returned
@@ -102,7 +103,11 @@ func (r *Req) String() string {
 	if r.returned != nil {
 		ret = fmt.Sprint(*r.returned)
 	}
-	return fmt.Sprintf("w%d.%d %s node=%q api=%s -> called=%d evict()=%s", r.Worker, r.Index, r.key(), r.Node, r.Outcome, r.apiCalls, ret)
+	cyc := ""
+	if r.NewCycle {
+		cyc = "[new cycle] "
+	}
+	return fmt.Sprintf("%sw%d.%d %s node=%q api=%s -> called=%d evict()=%s", cyc, r.Worker, r.Index, r.key(), r.Node, r.Outcome, r.apiCalls, ret)
 }
 
 func (r *Req) Pod() *corev1.Pod {
@@ -189,6 +194,9 @@ func GenScenario(t *rapid.T, concurrent, hasTotal bool) *Scenario {
 			if rapid.IntRange(0, 7).Draw(t, "fail") < failRate {
 				r.Outcome = rapid.SampledFrom([]Outcome{NotFound, TooManyRequests, ServerError}).Draw(t, "failKind")
 			}
+			if !concurrent && i > 0 {
+				r.NewCycle = rapid.IntRange(0, 11).Draw(t, "newCycle") == 0
+			}
 			reqs = append(reqs, r)
 		}
 		sc.Workers = append(sc.Workers, reqs)
@@ -210,7 +218,8 @@ type Gate struct {
 	failAll   bool            // abort mode: every call fails immediately
 	reqs      map[string]*Req // by ns/name, read-only after construction
 	parked    []*parked       // currently in flight
-	succeeded []*Req          // API calls that were answered with success, in order
+	succeeded []*Req          // API calls that were answered with success in the current cycle, in order
+	everOK    int             // ... in all cycles
 	arrived   int             // API calls that reached the endpoint
 	unknown   []string        // calls for pods nobody asked to evict
 	finished  int             // workers that have returned (scheduler bookkeeping)
@@ -243,6 +252,7 @@ func (g *Gate) evict(ns, name string) error {
 	if !g.park {
 		if r.Outcome == OK {
 			g.succeeded = append(g.succeeded, r)
+			g.everOK++
 		}
 		g.mu.Unlock()
 		return r.Outcome.err(name)
@@ -271,6 +281,7 @@ func (g *Gate) release(p *parked) {
 	}
 	if p.req.Outcome == OK && !g.failAll {
 		g.succeeded = append(g.succeeded, p.req)
+		g.everOK++
 	}
 	g.mu.Unlock()
 	close(p.ch)
@@ -340,6 +351,8 @@ type SUT struct {
 	// CountersInDryRun: the evictor counts simulated evictions in dry-run mode (evictorProxy does,
 	// PodEvictor does not); counters are then compared with the accepted requests instead of the API calls.
 	CountersInDryRun bool
+	// Reset starts a new descheduling cycle (nil: the evictor lives for one cycle only).
+	Reset func()
 }
 
 type Factory func(sc *Scenario, env *Env) *SUT
@@ -377,11 +390,14 @@ func check(t *rapid.T, c *vk.Case, sc *Scenario, g *Gate, sut *SUT, mode string,
 		succ.add(r)
 	}
 	accepted := newTally()
-	arrived, events, unknown := g.arrived, g.events, append([]string(nil), g.unknown...)
+	arrived, events, everOK, unknown := g.arrived, g.events, g.everOK, append([]string(nil), g.unknown...)
 	var reqs []*Req
 	for _, r := range sc.all() {
 		cp := *r
 		reqs = append(reqs, &cp)
+		if r.NewCycle && r.returned != nil && sut.Reset != nil {
+			accepted = newTally() // counters restart with the cycle
+		}
 		if r.returned != nil && *r.returned {
 			accepted.add(r)
 		}
@@ -421,8 +437,8 @@ func check(t *rapid.T, c *vk.Case, sc *Scenario, g *Gate, sut *SUT, mode string,
 				return c.Violation(t, sut.Name+":evicted-but-reported-refused", "%s: %s was evicted by the API server but Evict returned false; %s", sc, r.key(), hist())
 			}
 		}
-		if events > int(succ.total) {
-			return c.Violation(t, sut.Name+":event-without-eviction", "%s: %d eviction events emitted for %d evictions; %s", sc, events, succ.total, hist())
+		if events > everOK {
+			return c.Violation(t, sut.Name+":event-without-eviction", "%s: %d eviction events emitted for %d evictions; %s", sc, events, everOK, hist())
 		}
 	}
 	// the reported counters equal the evictions issued
@@ -453,14 +469,27 @@ func check(t *rapid.T, c *vk.Case, sc *Scenario, g *Gate, sut *SUT, mode string,
 	return false
 }
 
-func classify(c *vk.Case, sc *Scenario, g *Gate) (demandOverCap bool) {
+func classify(c *vk.Case, sc *Scenario, g *Gate, cyclic bool) (demandOverCap bool) {
 	c.Class("cap-node:" + capStr(sc.CapNode))
 	c.Class("cap-ns:" + capStr(sc.CapNs))
 	c.Class("cap-total:" + capStr(sc.CapTotal))
 	c.ClassIf(sc.DryRun, "dry-run")
 	okDemand := newTally()
+	evalDemand := func() {
+		for _, n := range sc.Nodes {
+			demandOverCap = demandOverCap || over(okDemand.node[n], sc.CapNode)
+		}
+		for _, n := range sc.Namespaces {
+			demandOverCap = demandOverCap || over(okDemand.ns[n], sc.CapNs)
+		}
+		demandOverCap = demandOverCap || over(okDemand.total, sc.CapTotal)
+	}
 	fails, unassigned, refusedCalls := 0, 0, 0
 	for _, r := range sc.all() {
+		if r.NewCycle && cyclic {
+			evalDemand()
+			okDemand = newTally()
+		}
 		if r.Outcome == OK {
 			okDemand.add(r)
 		} else {
@@ -473,18 +502,12 @@ func classify(c *vk.Case, sc *Scenario, g *Gate) (demandOverCap bool) {
 			refusedCalls++
 		}
 	}
-	for _, n := range sc.Nodes {
-		demandOverCap = demandOverCap || over(okDemand.node[n], sc.CapNode)
-	}
-	for _, n := range sc.Namespaces {
-		demandOverCap = demandOverCap || over(okDemand.ns[n], sc.CapNs)
-	}
-	demandOverCap = demandOverCap || over(okDemand.total, sc.CapTotal)
+	evalDemand()
 	c.ClassIf(demandOverCap, "demand-exceeds-some-cap")
 	c.ClassIf(fails > 0, "api-failures-injected")
 	c.ClassIf(unassigned > 0, "pod-without-node")
 	c.ClassIf(refusedCalls > 0, "some-request-refused-without-api-call")
-	c.ClassIf(len(g.succeeded) > 0, "some-eviction-issued")
+	c.ClassIf(g.everOK > 0, "some-eviction-issued")
 	return
 }
 
@@ -518,7 +541,13 @@ func RunSequential(t *rapid.T, c *vk.Case, mk Factory, hasTotal bool) {
 		}
 		return "history=[" + strings.Join(s, "; ") + "]"
 	}
+	cycles := 1
 	for _, r := range reqs {
+		if r.NewCycle && sut.Reset != nil {
+			sut.Reset()
+			g.succeeded = nil // the caps and the counters are per cycle
+			cycles++
+		}
 		before := g.arrived
 		var nodeB, nsB uint
 		var totB int
@@ -539,7 +568,8 @@ func RunSequential(t *rapid.T, c *vk.Case, mk Factory, hasTotal bool) {
 			return
 		}
 	}
-	demandOver := classify(c, sc, g)
+	demandOver := classify(c, sc, g, sut.Reset != nil)
+	c.ClassIf(cycles > 1, "several-cycles(reset)")
 	if demandOver && !sc.DryRun {
 		c.NonTrivial(sc.String(), hist())
 	}
@@ -549,13 +579,13 @@ func RunSequential(t *rapid.T, c *vk.Case, mk Factory, hasTotal bool) {
 // ---------------------------------------------------------------- (c) concurrent
 
 type sched struct {
-	sc      *Scenario
-	g       *Gate
-	sut     *SUT
-	wg      sync.WaitGroup
-	started int
-	cur     []int // per worker: index of the request it is executing (guarded by g.mu)
-	log     []string
+	sc         *Scenario
+	g          *Gate
+	sut        *SUT
+	wg         sync.WaitGroup
+	started    int
+	cur        []int // per worker: index of the request it is executing (guarded by g.mu)
+	log        []string
 	sawBlocked bool
 }
 
@@ -795,7 +825,7 @@ func RunConcurrent(t *rapid.T, c *vk.Case, mk Factory, hasTotal, parallel bool) 
 	s.wg.Wait()
 	joined = true
 	// statistics first: a case abandoned on a known finding still counts for the distribution
-	classify(c, sc, g)
+	classify(c, sc, g, false)
 	switch n := len(sc.Workers); {
 	case n <= 4:
 		c.Class("workers:2-4")
